@@ -649,6 +649,8 @@ func TestC31(t *testing.T) {
 	r.Assume("PROXY headers are parsed by github.com/pires/go-proxyproto; only the source address and the PROXY command are judged")
 	r.Assume("the TCPShield real-IP format (host///client///unixtime + re-attached Forge part) is Gate's documented format; the clause judged is that it is computed once, from the original handshake; the unix time may be any second between case start-2 and end+2")
 	r.Assume("streams are compared after both sides reached EOF; a stream that is merely a prefix after the 8 s watchdog is re-run alone with a 3x budget before it counts")
+	r.Rule("end-of-stream classes (eos_test.go), client side a real loopback TCP connection (3/4) or in-memory: backend-half-close = backend sends k bytes (0..1 MiB, concurrently with an early client upload 0..512 KiB), CloseWrite, keeps reading; client (synced on the half-close + settle delay, or free-running) sends a late chunk and a further upload (mostly 1-2 MiB) and ends by half-close-then-read-to-EOF or close. client-half-close = client uploads 0..2 MiB and half-closes, backend sends 1 B..4 MiB after the client's EOF / concurrently / concurrently with the client half-closing only after it has it all. backend-close = backend sends k bytes and closes. Same handshake/option/first-backend generator as above")
+	r.Assume("end-of-stream reading: the end of the CLIENT's stream is the end of the forwarded connection (Gate's pipe returns when the client->backend copy ends and Forward closes both sides), so after a client half-close only 'every client byte reached the backend' and 'the client got a prefix of the backend's bytes' are judged; a short stream is judged only once the receiving connection ended (EOF/error), a watchdog expiry is inconclusive; a backend stream cut by a TCP reset because the backend was still sending when Gate closed is not judged (counted)")
 
 	n := r.N(240, 10000)
 	workers := 4
@@ -758,6 +760,7 @@ func TestC31(t *testing.T) {
 	r.Set("watchdog_expiries", timeouts.Load())
 
 	statusPath(r)
+	endOfStream(r)
 }
 
 // statusPath: the other caller of dialRoute. A status request through the real
